@@ -285,9 +285,9 @@ impl Cfg {
 
 #[derive(Clone, Debug)]
 pub enum Got {
-    NewSpan { id: u64, name: String, fields: Vec<Seen> },
+    NewSpan { id: u64, name: String, level: usize, fields: Vec<Seen> },
     Record { id: u64, fields: Vec<Seen> },
-    Event { name: String, fields: Vec<Seen> },
+    Event { name: String, level: usize, fields: Vec<Seen> },
     /// `Collect::enabled` was asked (only logged; `enabled!` ends here)
     EnabledQ { name: String, field_names: Vec<String> },
 }
@@ -295,9 +295,9 @@ impl Got {
     pub fn to_json(&self) -> J {
         let fs = |v: &Vec<Seen>| v.iter().map(|s| s.to_json()).collect::<Vec<_>>();
         match self {
-            Got::NewSpan { id, name, fields } => json!({"new_span": name, "id": id, "visited": fs(fields)}),
+            Got::NewSpan { id, name, level, fields } => json!({"new_span": name, "id": id, "level(1=ERROR..5=TRACE)": level, "visited": fs(fields)}),
             Got::Record { id, fields } => json!({"record": id, "visited": fs(fields)}),
-            Got::Event { name, fields } => json!({"event": name, "visited": fs(fields)}),
+            Got::Event { name, level, fields } => json!({"event": name, "level(1=ERROR..5=TRACE)": level, "visited": fs(fields)}),
             Got::EnabledQ { name, field_names } => json!({"enabled?": name, "fields": field_names}),
         }
     }
@@ -371,7 +371,7 @@ impl Collect for Shared {
         let id = self.0.next.fetch_add(1, Ordering::Relaxed);
         let mut v = TypedVisitor::default();
         a.record(&mut v);
-        self.0.push(Got::NewSpan { id, name: a.metadata().name().to_string(), fields: v.seen });
+        self.0.push(Got::NewSpan { id, name: a.metadata().name().to_string(), level: vlib::rec::rank(a.metadata().level()), fields: v.seen });
         Id::from_u64(id)
     }
     fn record(&self, s: &Id, r: &Record<'_>) {
@@ -383,7 +383,7 @@ impl Collect for Shared {
     fn event(&self, ev: &Event<'_>) {
         let mut v = TypedVisitor::default();
         ev.record(&mut v);
-        self.0.push(Got::Event { name: ev.metadata().name().to_string(), fields: v.seen });
+        self.0.push(Got::Event { name: ev.metadata().name().to_string(), level: vlib::rec::rank(ev.metadata().level()), fields: v.seen });
     }
     fn enter(&self, _: &Id) {}
     fn exit(&self, _: &Id) {}
